@@ -250,6 +250,39 @@ theorem replaceChar_of_none (a b : Char) (s : Str) (h : a ∉ s) : replaceChar a
     simp only [replaceChar, List.map_cons, hx, Bool.false_eq_true, if_false] at ih ⊢
     rw [ih (fun e => h (by simp [e]))]
 
+/-! ### comma-joined lists -/
+
+theorem joinComma_cons_cons (x y : Str) (r : List Str) : Encode.joinComma (x :: y :: r) = x ++ ',' :: Encode.joinComma (y :: r) := by
+  simp [Encode.joinComma]
+
+theorem splitOn_joinComma (xs : List Str) (h : ∀ x ∈ xs, ',' ∉ x) (hne : xs ≠ []) : splitOn ',' (Encode.joinComma xs) = xs := by
+  cases xs with
+  | nil => exact absurd rfl hne
+  | cons x rest =>
+    induction rest generalizing x with
+    | nil => simpa [Encode.joinComma] using splitOn_no_sep ',' x (h x (by simp))
+    | cons y r ih =>
+      rw [joinComma_cons_cons, splitOn_append_sep ',' x _ (h x (by simp)),
+        ih y (fun z hz => h z (by simp [hz])) (by simp)]
+
+theorem joinComma_chars (xs : List Str) (p : Char → Prop) (hp : p ',') (h : ∀ x ∈ xs, ∀ c ∈ x, p c) :
+    ∀ c ∈ Encode.joinComma xs, p c := by
+  cases xs with
+  | nil => intro c hc; cases hc
+  | cons x rest =>
+    intro c hc
+    simp only [Encode.joinComma, List.mem_append, List.mem_flatMap, List.mem_cons] at hc
+    rcases hc with hc | ⟨y, hy, hc | hc⟩
+    · exact h x (by simp) c hc
+    · subst hc; exact hp
+    · exact h y (by simp [hy]) c hc
+
+theorem joinComma_snoc_append (xs : List Str) (a b : Str) :
+    Encode.joinComma (xs ++ [a ++ b]) = Encode.joinComma (xs ++ [a]) ++ b := by
+  cases xs with
+  | nil => simp [Encode.joinComma]
+  | cons x r => simp [Encode.joinComma, List.flatMap_append, List.append_assoc]
+
 /-! ### `key: value` lines -/
 
 /-- the `key: value` line without its terminator. -/
